@@ -8,8 +8,9 @@ TRUSTED_BASE = [
     'Gen/Precomp.lean; regenerated every run and validated every run: each generated block is evaluated at Float '
     'by the driver and compared bit for bit with CPython executing the real code string / documented text)',
     'hand-written model lean/PysphVerif/Model/Codegen.lean (sort_precomputed, _setup_precomputed, MegaGroup '
-    'data, pointer set-up, declarations, scratch vectors, call sites of the group callables), tied to the code by comparing with the real functions '
-    'and with the parsed generated source of random programs',
+    'data, pointer set-up, declarations, scratch vectors, call sites of the group callables) and Model/CodegenOpts.lean '
+    '(destination loop limits from start_idx / stop_idx / real, attribute declarations of the equation wrapper classes), '
+    'tied to the code by comparing with the real functions and with the parsed generated source of random programs',
     'compyle transpiler, Cython, g++, libm, cyarray: outside the repository and outside any model; for arbitrary '
     'user equations the statement is carried by differential execution (testing), labelled as such',
     'the naming-convention formulas for WDP, GHI/GHJ/GHIJ, WDASHI/J/IJ, which equations.rst does not list',
@@ -19,13 +20,16 @@ ASSUMPTIONS = [
     'a property name has the same carray type in every particle array that carries it (otherwise the generated '
     'wrapper declares the attribute twice and does not compile)',
     'equations within the documented subset: s_* arrays only in loop / loop_all / initialize_pair',
+    'the equation classes of ONE evaluator have distinct class names (the generated module has one cdef class per name); '
+    'across evaluators of one process names may repeat freely',
+    'start_idx / stop_idx within [0, number of particles of the destination] (beyond that the generated loop indexes out of bounds)',
     'neighbour lists are those of the NNPS in use (C01); order of hook calls is C03',
 ]
 READY = True
 DESIGN_REF = '6/C02'
 TECHNIQUE = ('Lean 4 proof over a table regenerated from equation.py/equations.rst and a hand-written model of the '
              'generator bookkeeping + generated-source validation + differential execution of compiled programs')
-LEVEL_TEXT = ("Lean 4 theorems (25) over (i) the precomputed-symbol table regenerated on every run from "
+LEVEL_TEXT = ("Lean 4 theorems (36) over (i) the precomputed-symbol table regenerated on every run from "
               "equation.py::precomputed_symbols() and docs/source/design/equations.rst (precomp_code_eq_doc/_conv, "
               "precomp_matches_doc in every number system, symbols_table_consistent, precomp_table_acyclic) and (ii) a "
               "hand-written model of sort_precomputed, Group._setup_precomputed, MegaGroup._make_data and the pointer / "
@@ -33,17 +37,28 @@ LEVEL_TEXT = ("Lean 4 theorems (25) over (i) the precomputed-symbol table regene
               "sort_respects_deps, sort_terminates_on_dag, closure_closed_minimal, setup_ok_on_shipped_table, wiring_sound, "
               "wiring_covers_dest/src/precomputed, wiring_types, scratch_disjoint; callsites_own_group / callsites_complete: every "
               "condition/pre/post call of the generated compute refers to self.groups[i](.data[k]) of the group in whose text it "
-              "stands, whatever the Group(name=...) labels are, shared labels included). The model is tied to the code on every "
+              "stands, whatever the Group(name=...) labels are, shared labels included; dest_range_is_documented_range, "
+              "stop_at_or_below_start_runs_nothing, default_limits_run_all: for every start_idx / stop_idx (integer, 0 included, name of a "
+              "property/constant, None), real flag and run-time state the loops of a destination block visit exactly the documented "
+              "range(start, stop), with the counterexample falsy_stop_runs_everything for a generator that tests the truth value of stop_idx; "
+              "wrapper_decl_holds_every_instance / wrapper_policies_agree_when_uniform / last_instance_policy_truncates / class_name_cache_goes_stale: "
+              "the C type declared for a numeric instance attribute holds the value of every instance re-created through the class). The model is tied to the code on every "
               "run by translator validation (bit-exact), by the real sort/set-up functions on random tables, and by parsing "
               "AccelerationEvalCythonHelper.get_code() of random programs (groups, one level of sub-groups, condition/pre/post, "
-              "explicit names: unique or shared by several groups); the property's own predicate (values after "
+              "explicit names: unique or shared by several groups; start_idx / stop_idx at boundary values; int / bool / float "
+              "attributes with per-instance values), also of programs built one after the other in ONE process whose class / array / group names "
+              "collide (sessions; the source of each member must be the one a fresh process generates); the property's own predicate (values after "
               "AccelerationEval.compute equal a pure-Python execution along the documented order with the documented "
               "formulas and the Python kernel classes) is evaluated by differential execution of compiled programs.")
 LEVEL_NOTE = ("proof for table / order / closure / wiring; for what transpiled user code computes (compyle, Cython, g++, "
               "libm: outside the repository and outside any model) the statement is carried by differential execution, "
-              "which is testing: quick = 15 compiled programs (2 corpus programs, one of them groups and sub-groups sharing a name "
-              "with conditions of different outcome; generated classes in the documented subset with group callables; 6 programs of "
-              "shipped equations), thorough = all curated and discovered scalar-property shipped equations x dims. "
+              "which is testing: quick = 17 compiled single programs (4 corpus programs: source/destination wiring, groups and sub-groups "
+              "sharing a name with conditions of different outcome, loop limits at the boundaries -- stop_idx=0, start==stop, a constant of value 0 --, "
+              "instances differing in attribute type; generated classes in the documented subset with group callables, loop limits and int/bool/float "
+              "attributes; 6 programs of shipped equations) + 5 compiled sessions (19 programs built one after the other in one process per session: same class names with other attribute types, "
+              "re-defined bodies and helpers, other array types, other wiring/limits, repeated programs, shipped BodyForce with int then float parameters; "
+              "each member evaluated against the Python executor, a failing member re-run alone to tell a history failure) "
+              "+ 18 uncompiled sessions, thorough = all curated and discovered scalar-property shipped equations x dims. "
               "WDP/GH*/WDASH* are checked against the naming convention because equations.rst does not list them. "
               "OpenMP, GPU back ends, iterated groups (C03), strided shipped equations and Python-level hooks (py_initialize/reduce/converged: "
               "C03) are not exercised.")
